@@ -158,8 +158,10 @@ CHECKS['C06'] = dict(
          'exactly the merged content of the files adopted under key, failing iff the merge fails; C06_nested_include_same_data), C06_no_stream_is_identity (without includes the stream machinery '
          'is Builder.flatten), and for ANY file system C06_lookup_order / C06_missing_files_named / C06_found_files_in_order (including directory first, then cwd; failure iff a name is found '
          'nowhere, naming exactly those). The stream model is tied to Builder.preprocess/flatten by correspondence on real temp-directory includes, the lookup model exhaustively over all '
-         'placements of <= 3/4 names. Partial: file reading / PyYAML parsing / os.path are outside the model; the !path reference-point clause and "records the file it came from" are decided by '
-         'the implementation oracle over 9 spellings of the same file (not a theorem).',
+         'placements of <= 3/4 names. C06_path_spelling_irrelevant / C06_path_parent: for EVERY spelling of the source file name, working directory, n and components a !path:parent(n) node denotes "n+1 levels '
+         'above its file, then the components" - the same location for two spellings of the same file (model of the path arithmetic tied to pathlib / os.path by correspondence). '
+         'Partial: file reading / PyYAML parsing / os.path itself are outside the model; symbolic links are not modelled; "records the file it came from" is decided by the '
+         'implementation oracle.',
     design='4 (C06)',
     technique='Coq proofs about the stream splice/expand model and the lookup function (file system as a section variable); vm_compute correspondence on preprocessed include trees and all lookup '
               'placements; temp-directory layout / lookup / !path oracles for replays')
@@ -194,7 +196,9 @@ CHECKS['C12'] = dict(
          'with C12_history_refuted (known finding D11b). The models are tied to GlobalsWrapper (exhaustive), to the split statements taken from the source by an ast translator, and to real '
          'build sequences run in one process. Partial by nature: CPython\'s compiler / interpreter and the bytecode rewriter cannot be modelled here; "computes what Python computes" for every '
          'program of the grammar, f-string equality, EvalError-with-cause and no-crash are decided by the differential oracle (each program in a subprocess against native exec / eval), '
-         'with the rewriter\'s remaining limits as known finding D11a (precise signature computed from the natively compiled code).',
+         'with the rewriter\'s remaining limits as known finding D11a (precise signature computed from the natively compiled code). The rewriter itself is modelled as a function on code '
+         'units (Model/Patch.v, tied byte for byte to _patch_access_to_globals on natively compiled code objects) with C12_jumps_retargeted: for EVERY code object on which the patch '
+         'succeeds every relative jump keeps its opcode, sits at the image of its position and goes to the image of its old target, and C12_patch_keeps_opcodes.',
     design='4 (C12), 6 (D11)',
     technique='Coq proofs about name resolution, the code split and the module-cache history machine; vm_compute correspondence (exhaustive lookup patterns, ast-extracted split, traced build '
               'histories); differential execution of grammar-generated programs and f-strings against native exec/eval in crash-isolated subprocesses for replays')
